@@ -105,6 +105,28 @@ func run(c *wk.Ctx) {
 		}
 		runCase(c, i, p, r)
 	}
+	// extra positions for the manifest plans: what a failed or half-failed manifest append leaves behind (in memory
+	// and in the file) decides the fate of everything committed after it, and shows only after a reopen
+	var mplans []plan
+	for _, p := range plans {
+		if p.Type == storage.TypeManifest {
+			mplans = append(mplans, p)
+		}
+	}
+	// directed: failed Commit (manifest sync), discard, acknowledged writes, reopen (each takes ~3 s: Commit pauses
+	// one second between its retries)
+	for j := 0; j < c.Pick(16, 96); j++ {
+		if i := 4000000 + j; c.Mine(i) {
+			scenarioFailedCommitThenWrites(c, i)
+		}
+	}
+	extra := len(mplans) * c.Pick(6, 12)
+	for j := 0; j < extra; j++ {
+		i := 3000000 + j
+		if c.Mine(i) {
+			runCase(c, i, mplans[j%len(mplans)], c.Rand(i))
+		}
+	}
 }
 
 func arm(st *vstor.Stor, p plan, nth int) *vstor.Fault {
